@@ -24,7 +24,7 @@ def run(ctx):
              {"MaxN": "4", "MaxIn": "2", "FullStaticsN": "3", "GenOuts": "{2, 3, 4, 9, 10, 11, 12, 20, 101}"}
     cases_file, cases = p3.generate(ctx, "Lowering", consts)
     ctx.log(f"{len(cases)} cases")
-    results = [result_of(c) for c in cases]
+    cases, results = p3.execute(ctx, cases, cases_file, result_of)
     rf = ctx.scratch / "c10_results.json"
     rf.write_text(json.dumps(results))
     ctx.log("results written")
